@@ -26,6 +26,7 @@ type fileOp struct {
 	At   int    `json:"at,omitempty"`
 	Bit  int    `json:"bit,omitempty"`
 	N    int    `json:"n,omitempty"`
+	From string `json:"from,omitempty"` // op "copy": this file is overwritten with the ORIGINAL bytes of that file of the same set
 }
 
 type c13Case struct {
@@ -75,6 +76,10 @@ func applyFileOp(fs *envfs.FS, seed int64, op fileOp) {
 		}
 	case "garbage":
 		fs.Put(op.Path, scen.Garbage(seed, 77+op.N, op.N))
+	case "copy":
+		if src, sok := c13Orig[op.From]; sok {
+			fs.Put(op.Path, src)
+		}
 	case "appz":
 		if ok {
 			fs.Put(op.Path, append(append([]byte{}, b...), make([]byte, op.N)...))
@@ -84,9 +89,24 @@ func applyFileOp(fs *envfs.FS, seed int64, op fileOp) {
 	}
 }
 
+// c13Orig: the original bytes of the files of the set a case runs on (set by the runners before the file ops are
+// applied), for the "copy" op.
+var c13Orig map[string][]byte
+
 func c13GenFormat(g *core.Gen, fmtName string, set int, files []string, content map[string][]byte, dataFiles []string, dense bool, bounds func(b []byte) []int) {
 	emit := func(ops ...fileOp) {
 		g.Emit(&c13Case{Fmt: fmtName, Set: set, Ops: ops, DC: len(ops)%2 == 0})
+	}
+	// a file overwritten with a well-formed file of the same set that belongs elsewhere: the index over a recovery
+	// file and back, one recovery file over another, a data file over a set file and back - every ordered pair
+	if len(files) <= 8 {
+		for _, f := range files {
+			for _, from := range files {
+				if f != from {
+					emit(fileOp{Path: f, Op: "copy", From: from})
+				}
+			}
+		}
 	}
 	for _, f := range files {
 		b := content[f]
@@ -378,6 +398,7 @@ func c13RunP2(c *c13Case, r *core.Rec) {
 		variants = []string{"", "del0", "flip1"}
 	} else {
 		fs0 = s.FS0.Clone()
+		c13Orig = s.FS0.Files
 		for _, op := range c.Ops {
 			applyFileOp(fs0, r.Seed, op)
 		}
@@ -509,6 +530,7 @@ func c13RunP1(c *c13Case, r *core.Rec) {
 		variants = []string{"", "del0", "flip1"}
 	} else {
 		fs0 = s.FS0.Clone()
+		c13Orig = s.FS0.Files
 		for _, op := range c.Ops {
 			applyFileOp(fs0, r.Seed, op)
 		}
@@ -586,7 +608,7 @@ func init() {
 	core.Register(&core.Prop{
 		ID:    "C13",
 		Level: "fault_enumeration",
-		Rule: "for a small PAR2 set (2 files, slice 4, 3 blocks) and a small PAR1 set (2 files, 2 volumes): for EVERY file of the set (index, recovery/parity files, data files): truncation at every byte offset, every single-bit flip, garbage of 4 lengths, emptied, deleted; every subset of deleted files; pairs deletion+flip/truncation; the data-file part of that menu also on sets whose content exists twice (a duplicated file, duplicated slices, a set without recovery blocks) and on zero-tailed files. " +
+		Rule: "for a small PAR2 set (2 files, slice 4, 3 blocks) and a small PAR1 set (2 files, 2 volumes): for EVERY file of the set (index, recovery/parity files, data files): truncation at every byte offset, every single-bit flip, garbage of 4 lengths, emptied, deleted, overwritten with every other file of the same set (the index over a recovery file, one volume over another, ...); every subset of deleted files; pairs deletion+flip/truncation; the data-file part of that menu also on sets whose content exists twice (a duplicated file, duplicated slices, a set without recovery blocks) and on zero-tailed files. " +
 			"For larger sets (>16 KiB data, slice 64): truncation at every packet/entry boundary +-1 and header field, every header bit, every 97th payload bit. Crash part: every prefix of Create's recorded write sequence with the interrupted write torn at every byte (small) or every packet/field boundary (large), then Verify and Repair with data intact / one file deleted / one file bit-flipped. " +
 			"Oracle: no panic, no hang, error or result; usable data <= slices (files) whose content is present; usable recovery blocks <= distinct intact recovery packets found by a resynchronising reference scanner (PAR1: volumes that parse strictly with the original parity data); Repair writes only exact originals (C02 oracle); with the index and every recovery file untouched, a Repair that reports success leaves every protected file original; Verify writes nothing. non-trivial = fault changed the outcome (error or repair)",
 		Assumptions: []string{"an error is an acceptable answer to any corruption (the statement allows 'either an error or a result')"},
